@@ -8,11 +8,14 @@ N=${1:-12}
 rc=0
 run() { # sim profile
 	local a b
+	if [ -n "${SELFTEST_ONLY:-}" ] && ! echo " $SELFTEST_ONLY " | grep -q " $1/$2 "; then return; fi
 	a=$(for s in $(seq 101 $((100+N))); do $BIN one $1 $2 quick $s 2>&1 | grep -o "history_fp [0-9a-f]*"; done | md5sum)
 	b=$(for s in $(seq 101 $((100+N))); do $BIN one $1 $2 quick $s 2>&1 | grep -o "history_fp [0-9a-f]*"; done | md5sum)
 	if [ "$a" = "$b" ]; then echo "same  $1/$2"; else echo "DIFF  $1/$2"; rc=2; fi
 }
-for p in offchain forward receive asyncpersist onchain justice tamper deadlines deadlinecrash chainstyle roundtrip onionline; do run lnsim $p; done
+for p in offchain forward receive asyncpersist onchain justice tamper deadlines deadlinecrash chainstyle roundtrip onionline crash asynccrash justicesweep; do run lnsim $p; done
 run transportsim mix; run transportsim adversary; run codecsim stream; run gossipsim mixed
 run blocksyncsim sync; run blocksyncsim tiplies; run persistsim sync; run persistsim async
+run blobsim scorer; run blobsim sweeper
+# only some profiles: SELFTEST_ONLY="sim/profile ..." (space separated) is honoured below
 exit $rc
